@@ -317,7 +317,10 @@ skipSpace:
 				case '\n', runeEOF:
 					break runeLoop
 				case escNewl:
+					// A backslash does not continue a comment onto the
+					// next line: the newline ends it.
 					p.litBs = append(p.litBs, '\\', '\n')
+					p.r, p.w = '\n', 1
 					break runeLoop
 				case '`':
 					if p.backquoteEnd() {
